@@ -39,9 +39,9 @@ func c01Cases(seed int64) []c01Case {
 	rng := rand.New(rand.NewSource(seed ^ 0xC01))
 	var cs []c01Case
 	epochs := []uint64{1, 7, 700, 0, 123}
-	nRandom := ev.Pick(40, 300)
+	nRandom := ev.Pick(40, 160)
 	if os.Getenv("VERIF_RACE") != "" {
-		nRandom = ev.Pick(5, 40) // the race-detector run: index generation and lookups on a few CARs
+		nRandom = ev.Pick(5, 16) // the race-detector run: index generation and lookups on a few CARs
 	}
 	for i := 0; i < nRandom; i++ {
 		o := cargen.Opts{
